@@ -17,11 +17,12 @@
    C15_acked_not_lost_racing.  Node-local application of loaded configs (ConfigApply.v): C15_apply_monotone_cas,
    C15_apply_no_shared_collection, C15_apply_converges (+ C15_apply_reaches_loaded).  C15_get_configs_terminates.
    PARTIAL / not proved: the unconditional racing statements (refuted, also WITHOUT any stalled node:
-   C15_Refuted.acked_lost_to_stale_wait / acked_lost_to_delete_finalize), progress_after_crash (refuted: left-over
+   C15_Refuted.acked_lost_to_stale_wait; acked_lost_to_delete_finalize is about the code before the repair cd27b43
+   -- its schedule now satisfies the conditions and the theorems apply), progress_after_crash (refuted: left-over
    in-flight markers block unrelated creates), unconditional apply_converges (refuted: two databases that swapped
    collections are never applied). *)
 From SG Require Import Base.Prelude C15.ConfigProto C15.ProtoOwn C15.ProtoLocal C15.ProtoSeq C15.ProtoClean
-  C15.ProtoRace C15.ProtoRaceMain C15.ConfigApply C15.ApplyProofs C15.ProtoTerm.
+  C15.ProtoRace C15.ProtoRaceStep C15.ProtoRaceMain C15.ConfigApply C15.ApplyProofs C15.ProtoTerm.
 Open Scope N_scope.
 
 (* registry_ownership -- ALL interleavings, crash points and timer expiries.  Own R: for any two distinct
@@ -180,8 +181,10 @@ Proof. vm_compute. repeat split; auto. Qed.
    no_giveup_while_alive   a waiting read gives up only when no node that persisted its registry change for that
                            database and has not yet written / deleted the config document is alive;
    no_stale_giveup         ... and only when the waiter's view of that database's registry entry is the stored one;
-   no_overlap_with_finalize  no change of a database is started (step-2 registry write) while another alive node
-                           is in the finalize phase of a change of that database;
+   no_overlap_with_finalize  no update or delete of a database is started (step-2 registry write) while another
+                           alive node is in the finalize phase of a change of that database, and no create while an
+                           alive UPDATE of it finalizes (a create MAY overlap with the finalize of a delete: the
+                           repaired finalize, cd27b43, only removes the entry it marked);
    prompt_rollback         the fence (touch) of a roll-back is written only while the repairer's view of that
                            database's registry entry is still the stored one.
    race_hyps is their conjunction over the whole schedule. *)
@@ -209,8 +212,15 @@ Theorem C15_acked_visible_racing : forall ops evs i ex pk nd nd',
   race_hyps ops (evs ++ [Step i ex pk]) = true ->
   nth_error (w_nodes (run ops evs)) i = Some nd -> n_pc nd <> PDone ROk ->
   nth_error (w_nodes (run ops (evs ++ [Step i ex pk]))) i = Some nd' -> n_pc nd' = PDone ROk ->
-  acked_state (n_op nd') (w_st (run ops (evs ++ [Step i ex pk]))).
+  acked_r (n_op nd') (w_st (run ops (evs ++ [Step i ex pk]))).
 Proof. exact acked_visible_racing. Qed.
+(* acked_r o st = acked_state o st, or -- for a delete -- the database has been created again by a concurrent writer
+   after the config document was deleted (the finalize then leaves that entry alone) *)
+Theorem C15_acked_r_def : forall o st,
+  acked_r o st <->
+  (acked_state o st \/ exists d e, o = ODelete d /\ aget (regc st) d = Some e /\ is_deleted (rv_ver (e_cur e)) = false).
+Proof. intros o st. reflexivity. Qed.
+Print Assumptions C15_acked_r_def.
 Print Assumptions C15_acked_visible_racing.
 
 (* ... and once a database is steady (in particular after an acknowledged create or update) every later step of
